@@ -511,9 +511,18 @@ class Executor:
         if hook is not None:
             return hook(self, self.ctx, st, env)
         it = self.eval(st.iter, env)
-        items = self.iterate(it)
         broke = False
-        for x in list(items):
+        if isinstance(it, list):
+            # CPython's list iterator: index-based over the LIVE list (mutation during iteration is visible)
+            def live():
+                i = 0
+                while i < len(it):
+                    yield it[i]
+                    i += 1
+            items = live()
+        else:
+            items = list(self.iterate(it))
+        for x in items:
             self.assign(st.target, x, env)
             try:
                 self.exec_block(st.body, env)
